@@ -1,6 +1,21 @@
 (* Model/Eval.v — eval/eval.go: the evaluator as a fuel-indexed state machine over chains.
    Mirrors evaluateImports / declare / evaluateExpr (memo + cycle states) / evaluate*Access / builtins /
-   the fn::open gate, in modes check and open, with a log of collaborator calls.  Definitions only. *)
+   the fn::open gate, in modes check and open, with a log of collaborator calls.  Definitions only.
+
+   FUEL.  Go's recursion is unbounded; every fuelled function of the model either gets a fuel that is computed from its
+   argument and PROVED sufficient (its [O] branch is unreachable at the call sites of this file), or its exhaustion is
+   raised in the state flag [oof] and reaches [ob_oof] of [run]:
+   * the five mutually recursive evaluator functions and [eval_env]: [O => out_of_fuel] (explicit);
+   * [value_access]: called with [va_need c accs] = the exact number of its steps (chains of ANY length);
+   * [to_string]: called with [ts_need c] (depth of what it prints); [unexport]: [S (x_depth v)]; [x_to_json], [json_to_x],
+     [json_print], [json_all_ascii], [x_any]: [S depth] of their argument;
+   * [sch_property] / [sch_item] / [merged_schema] (Chain.v) / [sch_is_type]: [sch_depth] of the schema they descend;
+   * [export] where the evaluator only LOOKS at a value (contains_unknowns / contains_secrets / validate, the inputs of
+     EOpen) is [export_t]: the constant [big_fuel] first and, if that is not enough, [S (cdepth c)], which always is - its
+     [None] branches are unreachable (Proofs/RefSem2Depth.v: export_t_total);
+   * the constant fuel [big_fuel] (4096 = a bound on the nesting DEPTH of a value that is PRINTED) is left in EToJSON and
+     in the final [export] of [run]; both match [None] explicitly: [out_of_fuel] resp. the second disjunct of [ob_oof].
+   Sufficiency statements: Proofs/HelperFuel.v, Proofs/RefSem2Depth.v (export_t), Properties/C07_helpers.v. *)
 From Verif Require Import Base.Bytes Model.Chain Model.GoText Model.Envelope.
 
 (* ---------------- syntax (after ast.ParseEnvironment) ---------------- *)
@@ -139,12 +154,12 @@ Fixpoint unknown_access (s : sch) (accs : path) : chain * N :=
       | ScArray prefix items =>
           let n := match items with Some ScNever => Z.of_nat (length prefix) | _ => (-1)%Z end in
           match array_index a n with
-          | Some i => unknown_access (sch_item sch_fuel i s) rest
+          | Some i => unknown_access (sch_item (sch_depth s) i s) rest
           | None => (invalid_access, 1)
           end
       | ScObject _ _ =>
           match object_key a with
-          | Some k => unknown_access (sch_property sch_fuel k s) rest
+          | Some k => unknown_access (sch_property (sch_depth s) k s) rest
           | None => (invalid_access, 1)
           end
       | _ => (invalid_access, 1)
@@ -184,6 +199,41 @@ Fixpoint value_access (fuel : nat) (c : chain) (accs : path) : chain * N :=
     end
   end.
 
+(* the fuel evaluateValueAccess needs, EXACTLY: the number of calls of [value_access] on (c, accs) - one per accessor
+   consumed plus one per layer skipped while looking for a key in the base.  Structurally recursive (on the path, then on
+   the chain), so it needs no fuel itself.  The evaluator calls [value_access (va_need c accs) c accs]: the [O] branch of
+   [value_access] is unreachable there (Proofs/HelperFuel.v: value_access_exact, value_access_fuel_stable). *)
+Fixpoint va_steps (accs : path) : chain -> nat :=
+  match accs with
+  | [] => fun _ => 1%nat
+  | a :: rest =>
+      fix find (c : chain) : nat :=
+        match c with
+        | [] => 1%nat
+        | l :: base =>
+            if l_unk l then 1%nat
+            else match l with
+                 | LArr _ _ _ elems =>
+                     match array_index a (Z.of_nat (length elems)) with
+                     | Some i => S (va_steps rest (nth i elems []))
+                     | None => 1%nat
+                     end
+                 | LObj _ _ _ props =>
+                     match object_key a with
+                     | None => 1%nat
+                     | Some k =>
+                         match alookup k props with
+                         | Some child => S (va_steps rest (child ++ property k base))
+                         | None => if is_object base then S (find base) else 1%nat
+                         end
+                     end
+                 | LScalar _ _ _ _ => 1%nat
+                 end
+        end
+  end.
+
+Definition va_need (c : chain) (accs : path) : nat := va_steps accs c.
+
 (* ---------------- toString ---------------- *)
 Definition scalar_text (s : scalar) : string :=
   match s with SNull => "" | SBool true => "true" | SBool false => "false" | SNum t => t | SStr s => s end.
@@ -210,13 +260,41 @@ Fixpoint to_string (fuel : nat) (c : chain) : string * bool * bool :=
     end
   end.
 
+(* the fuel [to_string] needs: it descends through the members of the TOP layer only *)
+Fixpoint ts_need_l (l : layer) : nat :=
+  match l with
+  | LScalar _ _ _ _ => 1%nat
+  | LArr _ u _ elems =>
+      if u then 1%nat
+      else S ((fix go (cs : list (list layer)) : nat :=
+                 match cs with
+                 | [] => O
+                 | c :: r => Nat.max (match c with [] => 1%nat | l' :: _ => ts_need_l l' end) (go r)
+                 end) elems)
+  | LObj _ u _ props =>
+      if u then 1%nat
+      else S ((fix go (ps : list (string * list layer)) : nat :=
+                 match ps with
+                 | [] => O
+                 | kc :: r => Nat.max (match snd kc with [] => 1%nat | l' :: _ => ts_need_l l' end) (go r)
+                 end) props)
+  end.
+Definition ts_need (c : chain) : nat := match c with [] => 1%nat | l :: _ => ts_need_l l end.
+
+(* the fuel of the final [export] of [run] (its [None] is flagged in [ob_oof]) and the first attempt of [export_t] *)
 Definition big_fuel : nat := 4096.
 
-(* containsUnknowns / containsSecrets go through the merged view, like export *)
+(* the merged view of a value INSIDE the evaluator: [export] with a fuel that always suffices.  The constant [big_fuel]
+   is tried first (cheap, enough unless the value is nested 4096 deep); only if it fails the fuel is computed from the
+   chain ([cdepth], a full traversal).  Proofs/HelperFuel.v: export_t c = export (S (cdepth c)) c, and it is never None. *)
+Definition export_t (c : chain) : option xval :=
+  match export big_fuel c with Some v => Some v | None => export (S (cdepth c)) c end.
+
+(* containsUnknowns / containsSecrets go through the merged view, like export ([None] is unreachable: export_t_total) *)
 Definition contains_unknowns (c : chain) : bool :=
-  match export big_fuel c with Some v => x_has_unknown v | None => true end.
+  match export_t c with Some v => x_has_unknown v | None => true end.
 Definition contains_secrets (c : chain) : bool :=
-  match export big_fuel c with Some v => x_has_secret v | None => true end.
+  match export_t c with Some v => x_has_secret v | None => true end.
 
 (* ---------------- typed-expression validation (the fragment the builtins need) ---------------- *)
 Inductive accept := AccString | AccArrString | AccIn (s : in_schema).
@@ -238,7 +316,7 @@ Fixpoint sch_is_type (fuel : nat) (ty : string) (x : sch) : bool :=
 
 Definition top_is_string (c : chain) : bool :=
   match c with
-  | l :: _ => if l_unk l then sch_is_type sch_fuel "string" (top_sch c)
+  | l :: _ => if l_unk l then (let s := top_sch c in sch_is_type (sch_depth s) "string" s)
               else match l with LScalar _ _ _ (SStr _) => true | _ => false end
   | [] => false
   end.
@@ -273,7 +351,7 @@ Definition validate (a : accept) (c : chain) : bool * N :=
             (match top_sch c with
              | ScAlways => (true, 0)
              | ScArray prefix items =>
-                 let bad := filter (fun s => negb (sch_is_type sch_fuel "string" s)) (prefix ++ match items with Some ScNever | None => [] | Some i => [i] end) in
+                 let bad := filter (fun s => negb (sch_is_type (sch_depth s) "string" s)) (prefix ++ match items with Some ScNever | None => [] | Some i => [i] end) in
                  (match bad with [] => true | _ => false end, N.of_nat (length (filter (fun s => negb (sch_is_never s)) bad)))
              | ScNever => (false, 0)
              | _ => (false, 1)
@@ -300,7 +378,7 @@ Definition validate (a : accept) (c : chain) : bool * N :=
                    let badty := filter (fun p => existsb (String.eqb (fst p)) ks
                                           && negb (let pc := property (fst p) c in
                                                    match pc with
-                                                   | pl :: _ => if l_unk pl then sch_is_type sch_fuel (snd p) (top_sch pc)
+                                                   | pl :: _ => if l_unk pl then (let s := top_sch pc in sch_is_type (sch_depth s) (snd p) s)
                                                                 else String.eqb (top_type pc) (snd p)
                                                    | [] => false
                                                    end)) props in
@@ -358,7 +436,7 @@ Definition context_chain (W : world) (root cur : string) : chain :=
   let vals := fold_left (fun acc kv => ainsert (fst kv) (snd kv) acc)
                         [("currentEnvironment", name_obj cur); ("rootEnvironment", name_obj root)]
                         (fold_left (fun acc kv => ainsert (fst kv) (snd kv) acc) (w_ctx W) []) in
-  unexport big_fuel false (XObj false false vals).
+  unexport (S (x_depth (XObj false false vals))) false (XObj false false vals).
 
 Definition combine2 (a b : chain) : bool * bool :=
   (contains_unknowns a || contains_unknowns b, contains_secrets a || contains_secrets b).
@@ -404,7 +482,7 @@ with eval_repr (fuel : nat) (E : ectx) (x : expr) (xbase : chain) (id : eid) {st
            | (text, None) :: r => go r (acc +++ text) unk sec
            | (text, Some p) :: r =>
                pv <- eval_access f E p ;;
-               let '(s, u, sc) := to_string big_fuel pv in
+               let '(s, u, sc) := to_string (ts_need pv) pv in
                go r (if u then acc +++ text else acc +++ text +++ s) (unk || u) (sec || sc)
            end) parts EmptyString false false
     | ESym p => eval_access f E p
@@ -478,7 +556,7 @@ with eval_repr (fuel : nat) (E : ectx) (x : expr) (xbase : chain) (id : eid) {st
           else match v with
                | LScalar _ _ _ (SStr s) :: _ =>
                    match json_parse s with
-                   | JPOk j => ret (unexport big_fuel false (json_to_x (S (json_depth j)) sec j))
+                   | JPOk j => let xj := json_to_x (S (json_depth j)) sec j in ret (unexport (S (x_depth xj)) false xj)
                    | JPErr => err ;;; ret [LScalar sec true ScAlways SNull]
                    | JPUnsupported => out_of_fuel ;;; ret invalid_access
                    end
@@ -497,7 +575,7 @@ with eval_repr (fuel : nat) (E : ectx) (x : expr) (xbase : chain) (id : eid) {st
              end
     | EToString e =>
         v <- eval_expr f E e false [] (fst id, snd id ++ [IIdx 0]) ;;
-        let '(s, unk, sec) := to_string big_fuel v in
+        let '(s, unk, sec) := to_string (ts_need v) v in
         if unk then ret [LScalar sec true (ScType "string") SNull] else ret [str_layer sec false s]
     | ESecretPlain s =>
         eval_expr f E (EStr s) true [] (fst id, snd id ++ [IIdx 0])
@@ -527,14 +605,14 @@ with eval_repr (fuel : nat) (E : ectx) (x : expr) (xbase : chain) (id : eid) {st
         | None => ret [unknown_layer false out_s]
         | Some p =>
             if negb ok || contains_unknowns iv || w_check W then ret [unknown_layer false out_s]
-            else match export big_fuel iv with
+            else match export_t iv with
                  | Some (XObj s u m as xin) =>
                      failed2 <- call W ;;
                      emit (EvOpen id pname xin (ec_root E) (ec_name E)) ;;;
                      let out := if failed2 then None
                                 else match pv_beh p with PEcho => Some xin | PConst v => Some v | PFail => None end in
                      match out with
-                     | Some o => ret (unexport big_fuel false o)
+                     | Some o => ret (unexport (S (x_depth o)) false o)
                      | None => err ;;; ret [unknown_layer false out_s]
                      end
                  | Some _ => err ;;; ret [unknown_layer false out_s]     (* non-object inputs: diagnostic (after the fix) *)
@@ -563,8 +641,8 @@ with eval_access (fuel : nat) (E : ectx) (p : path) {struct fuel} : M chain :=
     | a0 :: rest =>
         let k0 := object_key a0 in
         match k0 with
-        | Some "imports" => let '(c, n) := value_access big_fuel (ec_imports E) rest in add_err n ;;; ret c
-        | Some "context" => let '(c, n) := value_access big_fuel (ec_context E) rest in add_err n ;;; ret c
+        | Some "imports" => let '(c, n) := value_access (va_need (ec_imports E) rest) (ec_imports E) rest in add_err n ;;; ret c
+        | Some "context" => let '(c, n) := value_access (va_need (ec_context E) rest) (ec_context E) rest in add_err n ;;; ret c
         | _ => walk f E (EObj (ec_values E)) false (ec_base E) (ec_name E, []) p
         end
     end
@@ -590,7 +668,7 @@ with walk (fuel : nat) (E : ectx) (rx : expr) (rsec : bool) (rbase : chain) (rid
                 match find_entry k entries O with
                 | Some (_, px) => walk f E px false (property k rbase) (fst rid, snd rid ++ [IKey k]) rest
                 | None =>
-                    if is_object rbase then let '(c, n) := value_access big_fuel rbase accs in add_err n ;;; ret c
+                    if is_object rbase then let '(c, n) := value_access (va_need rbase accs) rbase accs in add_err n ;;; ret c
                     else err ;;; ret invalid_access
                 end
             end
@@ -598,7 +676,7 @@ with walk (fuel : nat) (E : ectx) (rx : expr) (rsec : bool) (rbase : chain) (rid
         | ESecretCipher _ => err ;;; ret invalid_access
         | _ =>
             v <- eval_expr f E rx rsec rbase rid ;;
-            let '(c, n) := value_access big_fuel v accs in add_err n ;;; ret c
+            let '(c, n) := value_access (va_need v accs) v accs in add_err n ;;; ret c
         end
     end
   end.
